@@ -310,6 +310,7 @@ def shard(ctx):
                 r.fail("C12:c:" + panic_sig(rep2["panic"]), "edit at row %s panics the checker: %s" % (row, rep2["panic"].get("msg")), case)
         # other edit kinds with a known family
         other_edits(w, r, rng, prog, src, spans)
+        positioned_edits(w, r, rng, prog, src, ctx.params.get("per_kind", 2))
         builtin_arg_edits(w, r, rng, src)
     # ---- (d) where the SUB / FUNCTION texts sit does not matter; labels belong to the module or to one procedure ----
     for _ in range(m):
@@ -475,6 +476,141 @@ def other_edits(w, r, rng, prog, src, spans):
                 r.fail("C12:c:%s:wrong_parse_error" % name, "%s edit reported as %s at row %s (expected NextWithoutFor at row %s)" % (name, rep["parse"]["kind"], rep["parse"]["row"], row), case)
         elif v[0] == "panic":
             r.fail("C12:c:%s:%s" % (name, panic_sig(rep["panic"])), "%s edit panics the checker: %s" % (name, rep["panic"].get("msg")), case)
+
+
+SIMPLE_LINE = re.compile(r"^(\s*)(PRINT\b[^:]*|[A-Za-z][A-Za-z0-9.]*[%&!#$]?(\([^:]*\))? = [^:]*)$")
+DUP_FAMILY = {"DuplicateDefinition", "DuplicateLabel"}
+
+
+def line_scopes(lines):
+    """For every line the procedure it belongs to (None = main module)."""
+    out = []
+    cur = None
+    for l in lines:
+        m = re.match(r"^\s*(SUB|FUNCTION)\s+([A-Za-z][A-Za-z0-9.]*)", l)
+        if m:
+            cur = m.group(2).upper()
+        out.append(cur)
+        if re.match(r"^\s*END (SUB|FUNCTION)\b", l):
+            cur = None
+    return out
+
+
+def positioned_edits(w, r, rng, prog, src, per_kind):
+    """One ill-formed statement put after a simple statement anywhere in the program (any block nesting, main module
+    and procedure bodies): the checker must reject it with the matching family, at the row of the new statement."""
+    lines = src.split("\n")
+    scopes = line_scopes(lines)
+    # insertion points: after a simple assignment or PRINT line that is not part of a single-line IF
+    points = [i for i, l in enumerate(lines) if SIMPLE_LINE.match(l) and not l.rstrip().endswith(("THEN", "ELSE"))]
+    if not points:
+        return
+    main_points = [i for i in points if scopes[i] is None]
+    subs = [p for p in prog["procs"] if p["k"] == "sub"]
+    funs = [p for p in prog["procs"] if p["k"] != "sub"]
+
+    def ins_after(i, new):
+        ind = SIMPLE_LINE.match(lines[i]).group(1)
+        return lines[:i + 1] + [ind + new] + lines[i + 1:], i + 2
+
+    edits = []
+
+    def pick(cands, k):
+        cands = list(cands)
+        rng.shuffle(cands)
+        return cands[:k]
+
+    for i in pick(points, per_kind):
+        forms = ["GOTO NoLbl9", "GOSUB NoLbl9", "IF ZQ9% THEN GOTO NoLbl9", "IF ZQ9% THEN ZQ9% = 1 ELSE GOSUB NoLbl9"]
+        if scopes[i] is None:
+            forms.append("RETURN NoLbl9")    # RETURN label is not allowed inside a procedure (Illegal in SUB/FUNCTION)
+        form = rng.choice(forms)
+        e, row = ins_after(i, form)
+        edits.append(("missing_label_anywhere", e, {"LabelNotDefined"}, row))
+    for i in pick(main_points, max(1, per_kind // 2)):
+        form = rng.choice(["ON ERROR GOTO NoLbl9", "RESUME NoLbl9"])
+        e, row = ins_after(i, form)
+        edits.append(("missing_handler_label", e, {"LabelNotDefined"}, row))
+    for i in pick(points, per_kind):
+        if subs and rng.random() < 0.5:
+            p = rng.choice(subs)
+            nargs = len(p["params"])
+            k = rng.choice([c for c in (nargs - 1, nargs + 1, nargs + 2) if c >= 0])
+            if k == 0 and nargs == 0:
+                continue
+            args = ", ".join(('""' if (j < nargs and p["params"][j][1] == "$") else "1") for j in range(k))
+            e, row = ins_after(i, ("%s %s" % (p["name"], args)).rstrip())
+            edits.append(("wrong_arg_count_sub_anywhere", e, ARG_FAMILY, row))
+        elif funs:
+            p = rng.choice(funs)
+            nargs = len(p["params"])
+            k = rng.choice([c for c in (nargs - 1, nargs + 1) if c >= 1] or [nargs + 1])
+            args = ", ".join(('""' if (j < nargs and p["params"][j][1] == "$") else "1") for j in range(k))
+            rt = "$" if p["name"].endswith("$") else "#"
+            wrap = rng.choice(["ZF9{t} = {c}", "ZF9{t} = ({c})", "PRINT {c}", "IF {c} = {c} THEN ZQ9% = 1"])
+            e, row = ins_after(i, wrap.format(t=rt, c="%s(%s)" % (p["name"], args)))
+            edits.append(("wrong_arg_count_function_anywhere", e, ARG_FAMILY, row))
+    for i in pick(points, per_kind):
+        if not subs:
+            break
+        cands = [p for p in subs if p["params"]]
+        if not cands:
+            break
+        p = rng.choice(cands)
+        j = rng.randrange(len(p["params"]))
+        pt = p["params"][j][1]
+        bad = "ZBR9$" if pt != "$" else "ZBR9%"
+        args = ", ".join(bad if k == j else ('""' if t == "$" else "1") for k, (_, t) in enumerate(p["params"]))
+        e, row = ins_after(i, "%s %s" % (p["name"], args))
+        edits.append(("byref_type_anywhere", e, ARG_FAMILY, row))
+    # duplicate definitions: the same declaration twice in one scope
+    by_scope = {}
+    for i in points:
+        by_scope.setdefault(scopes[i], []).append(i)
+    for sc, pts in by_scope.items():
+        if len(pts) < 2:
+            continue
+        for _ in range(max(1, per_kind // 2)):
+            a, b = sorted(rng.sample(pts, 2))
+            decl = rng.choice(["DIM ZD9 AS INTEGER", "CONST ZC9 = 1", "ZL9:", "DIM ZA9(1 TO 2) AS LONG"])
+            e1, _ = ins_after(b, decl)
+            ind = SIMPLE_LINE.match(lines[a]).group(1)
+            e = e1[:a + 1] + [ind + decl] + e1[a + 1:]
+            edits.append(("duplicate_%s_anywhere" % decl.split(" ")[0].rstrip(":").lower(), e, DUP_FAMILY, b + 3))
+    # NEXT for the wrong counter, at every NEXT that names its counter
+    nexts = [i for i, l in enumerate(lines) if re.match(r"^\s*NEXT \S+\s*$", l)]
+    for i in pick(nexts, per_kind):
+        e = list(lines)
+        e[i] = re.match(r"^(\s*)", lines[i]).group(1) + "NEXT WRONGCTR%"
+        edits.append(("next_wrong_counter_anywhere", e, {"NextWithoutFor"}, i + 1))
+    for name, elines, family, row in edits:
+        esrc = "\n".join(elines)
+        rep = w.run(esrc, stop="lint")
+        v = verdict(rep)
+        if v[0] in ("died", "watchdog", "harness_error"):
+            r.inconc(v[0])
+            continue
+        r.evaluations += 1
+        r.count(name, group="parts")
+        r.count("in_procedure" if scopes[min(row - 2, len(scopes) - 1)] else "in_main", group="positioned_edit_scope")
+        r.count("depth_%d" % min(6, (len(elines[row - 1]) - len(elines[row - 1].lstrip())) // 2), group="positioned_edit_indentation")
+        r.nontrivial.add(h64(name + esrc))
+        case = {"part": "e", "src": esrc, "expected_row": row, "family": sorted(family), "edit": name}
+        if v[0] == "accepted":
+            r.fail("C12:e:%s_accepted" % name, "%s edit (row %s) is accepted | program:\n%s" % (name, row, mark_row(esrc, row)), case)
+        elif v[0] == "lint_error":
+            e = rep["lint"]
+            if v[1] not in family:
+                r.fail("C12:e:%s:wrong_family:%s" % (name, v[1]), "%s edit rejected with %s, expected one of %s | program:\n%s" % (name, v[1], sorted(family), mark_row(esrc, row)), case)
+            elif e["row"] != row:
+                r.fail("C12:e:%s:wrong_location" % name, "%s edit at row %s reported at %s:%s | program:\n%s" % (name, row, e["row"], e["col"], mark_row(esrc, row)), case)
+        elif v[0] == "parse_error":
+            if not name.startswith("next_wrong_counter"):
+                r.fail("C12:e:%s:parse_error" % name, "%s edit made the program unparsable: %s | program:\n%s" % (name, rep.get("parse"), mark_row(esrc, row)), case)
+            elif rep["parse"]["row"] != row or rep["parse"]["kind"] != "NextWithoutFor":
+                r.fail("C12:e:%s:wrong_parse_error" % name, "%s edit reported as %s at row %s (expected NextWithoutFor at row %s)" % (name, rep["parse"]["kind"], rep["parse"]["row"], row), case)
+        elif v[0] == "panic":
+            r.fail("C12:e:%s:%s" % (name, panic_sig(rep["panic"])), "%s edit panics the checker: %s" % (name, rep["panic"].get("msg")), case)
 
 
 RULE = ("(a) accepted programs of the whole-repertoire workload run under a monitor for Type mismatch (13) outside READ/INPUT/PRINT USING and for wrong-kind assertions; (b) every program of that "
